@@ -90,7 +90,9 @@ Qed.
 
 (* ---- the verdict never depends on earlier validation calls ---- *)
 
-(* whatever the `_errors` list holds when enforce() starts (not only what the model itself could have left there) *)
+(* DEFINITIONAL: pool_enforce never reads p_errs - it is the transcription of the repaired first line `self._errors = []` - so
+   the next two theorems are one-line consequences of that transcription (whatever the `_errors` list holds when enforce() starts).
+   Their content is the tie (pool histories with len(_errors) observed after every call) and C15_pool_old_code_refuted. *)
 Theorem C15_pool_stateless_any_state : forall p v, snd (pool_enforce p v) = snd (pool_enforce (fresh_pool (p_enf p)) v).
 Proof. exact pool_stateless_any_state. Qed.
 Print Assumptions C15_pool_stateless_any_state.
@@ -165,8 +167,11 @@ Theorem C15_form_member_stateless : forall f g m v p q,
 Proof. exact form_set_stateless. Qed.
 Print Assumptions C15_form_member_stateless.
 
-(* the other order - mark the member active, then validate - is refuted: the first statement discriminates *)
-Theorem C15_form_mark_first_refuted :
+(* ==== discriminates seeded variants (NOT statements about geoh5py: the variant below was never in the source) ==== *)
+
+(* were the member marked active before its value is validated (seeded change C15-r3-1), the first statement above would be false:
+   C15_form_rejected_member_unchanged is not true by accident of the model's shape *)
+Theorem C15_form_mark_first_variant_differs :
   ~ (forall f m v e, snd (form_set_gen true f m v) = Raise e -> fview (fst (form_set_gen true f m v)) = fview f).
 Proof. exact form_set_mark_first_refuted. Qed.
-Print Assumptions C15_form_mark_first_refuted.
+Print Assumptions C15_form_mark_first_variant_differs.
